@@ -18,6 +18,8 @@ SCHEMAS = [
     'version: "3"\nenum E { A0 = 0, A1 = 5, }\nstruct A { e @0: E, b @1: i9, s @2: str, }\n'
     'impl can for A { id: 10, bus: "b1", period: 100, signal b { mux_count: 4, scale: 0.5, endianess: "big", }, signal e { mux_signal: "b", }, }\n',
     'version: "3"\nstruct R { a @0: u8, }\nstruct S { b @0: [R], }\nservice Svc @1 { method m1(R) @0 returns S, method m2(S) @1 returns R, }\n',
+    # two methods that share an id (nothing rejects this): both must be listed, in declaration order
+    'version: "3"\nstruct R { a @0: u8, }\nservice Svc @1 { method m2(R) @3 returns R, method m1(R) @3 returns R, method m0(R) @0 returns R, }\n',
 ]
 
 
